@@ -141,6 +141,42 @@ def str_as_collection(func):
     return names, bad
 
 
+def plugin_capacity(chk, repo, rule):
+    """A plugin that declares max_messages (to cover the chunk lag it introduces) gets exactly that
+    capacity on its output mailbox."""
+    f = repo.func("ThreadedMailboxProcessor.__init__", THREADED)
+    loops = [n for n in walk_body(f.node) if isinstance(n, ast.For) and norm(n.iter) == "self.mailboxes.items()" and isinstance(n.target, ast.Tuple) and len(n.target.elts) == 2]
+    ok = False
+    why = "no loop over self.mailboxes.items() sets the capacities"
+    for lp in loops:
+        K, M = norm(lp.target.elts[0]), norm(lp.target.elts[1])
+        sets = [st for st in walk_body(lp) if isinstance(st, ast.Assign) and norm(st.targets[0]) == f"{M}.max_messages"]
+        own = [st for st in sets if norm(st.value) != "max_messages"]
+        if not own:
+            continue
+        cfg = cfg_of(f)
+        for st in own:
+            v = st.value
+            src = None
+            if isinstance(v, ast.Name):
+                d = [x for x in walk_body(lp) if isinstance(x, ast.Assign) and norm(x.targets[0]) == v.id]
+                src = norm(d[0].value) if len(d) == 1 else None
+            else:
+                src = norm(v)
+            facts = cfg.guard_facts(cfg.node_of(st))
+            want = f"components.plugins[{K}].max_messages"
+            if src != want:
+                why = f"`{norm(st)}` does not give the mailbox the plugin's own max_messages unchanged (value: {src or norm(v)}; expected {want})"
+            elif (f"{K} in components.plugins", True) not in facts:
+                why = f"the plugin is not looked up under the mailbox's data type `{K}`"
+            elif not any(t.endswith(" is not None") and p is True for t, p in facts):
+                why = "an undeclared (None) max_messages is not skipped"
+            else:
+                ok = True
+    chk.check(ok, rule, f, None, f"a plugin's declared max_messages does not become the capacity of its output mailbox: {why} - a failure-free graph whose plugin lags more chunks than the default capacity deadlocks",
+              site_text="ThreadedMailboxProcessor.__init__: m.max_messages = components.plugins[d].max_messages when declared", site={"function": f.qualname, "rule": "plugin-declared capacity"})
+
+
 def r3_wiring(chk, repo):
     chk.describe("C13.R3", "lazy mode only without worker pools; the same flag reaches mailboxes and dividers; savers of computed data never drive; flow-freely outputs = produced - required")
     f = repo.func("ThreadedMailboxProcessor.__init__", THREADED)
@@ -199,6 +235,7 @@ def r3_wiring(chk, repo):
         chk.ok("C13.R3", "wiring: no data-type name is iterated as a collection")
     mm = [n for n, b in pfind(f.node, "L_m.max_messages = max_messages")]
     chk.check(bool(mm), "C13.R3", f, None, "mailbox capacity is not set from the requested max_messages", site_text="m.max_messages = max_messages")
+    plugin_capacity(chk, repo, "C13.R3")
     init = repo.func("Mailbox.__init__", MAILBOX)
     icfg = cfg_of(init)
     inf = [n for n in icfg.stmt_nodes() if isinstance(n.stmt, ast.Assign) and norm(n.stmt.targets[0]) == "self.max_messages" and "inf" in norm(n.stmt.value)]
@@ -268,6 +305,10 @@ def r5_demand(chk, repo):
 
 
 WITNESSES = [
+    W("plugin capacity looked up under the mailbox name", "C13.R3", THREADED,
+      "if d in components.plugins:\n                max_m = components.plugins[d].max_messages", "if m.name in components.plugins:\n                max_m = components.plugins[m.name].max_messages"),
+    W("plugin capacity clamped to the context default", "C13.R3", THREADED,
+      "if max_m is not None:\n                    m.max_messages = max_m", "if max_m is not None:\n                    m.max_messages = min(max_m, max_messages)"),
     W("data-type name iterated as characters", "C13.R3", THREADED,
       "reader_data_types = set(strax.to_str_tuple(d))", "reader_data_types = set(d)"),
     W("capacity comparison <=", "C13.R1", MAILBOX,
